@@ -228,9 +228,10 @@ class MonitoredSet(MonitoredContainer, set):
     def add(self, value):
         self._add_item(value)
 
-    def update(self, values):
-        for value in values:
-            self._add_item(value)
+    def update(self, *values):
+        for iterable in values:
+            for value in iterable:
+                self._add_item(value)
 
     def _add_item(
         self, value, inferred: bool = False, add_relation_to_the_graph: bool = True
